@@ -41,9 +41,23 @@ const map<string, double> PREFIX_FACTORS = {{"y", 1.0e-24}, {"z", 1.0e-21}, {"a"
     {"k", 1.0e3}, {"M",1.0e6}, {"G", 1.0e9}, {"T", 1.0e12}, {"P", 1.0e15}, {"E",1.0e18}, {"Z", 1.0e21}, {"Y", 1.0e24}};
 
 
+static boost::mt19937 seededGenerator() {
+    // Seed from the system's entropy source and not from the wall clock:
+    // processes started within the same second must not create the same ids.
+    std::random_device rd;
+    std::vector<uint32_t> words(8);
+    for (auto &w : words) {
+        w = rd();
+    }
+    std::seed_seq seq(words.begin(), words.end());
+    boost::mt19937 gen;
+    gen.seed(seq);
+    return gen;
+}
+
+
 string createId() {
-    typedef boost::mt19937::result_type seed_type;
-    static boost::mt19937 ran(static_cast<seed_type>(std::time(0)));
+    static boost::mt19937 ran = seededGenerator();
     static boost::uuids::basic_random_generator<boost::mt19937> gen(&ran);
     boost::uuids::uuid u = gen();
     return boost::uuids::to_string(u);
